@@ -22,6 +22,7 @@ type Env struct {
 	vars  map[string]bound // quantifier variables, results, predicate parameters
 	prm   map[string]bound // function parameters (entry values); shadowed by live local cells
 	now   *State           // the current state, reachable from inside old()/atlock() via now(e)
+	final  func(name string) (Val, types.Type, bool) // set when evaluating `ensures`: the function's local variables at the return point
 	loopOf *loopInfo // set when evaluating an `exit` clause: the loop being left (for atloop())
 	snapPrefix string      // non-empty when evaluating a callee's clauses at a call site
 	local func(name string) (Val, types.Type, bool)
@@ -445,6 +446,9 @@ func (e *Env) binary(x *EBinary) (Val, types.Type) {
 		}
 		return Val{T: r}, tBool
 	case "<", "<=", ">", ">=":
+		if ty != nil && ty != untypedInt && isString(ty) {
+			return Val{T: strOrder(x.Op, av, bv)}, tBool
+		}
 		if isFloat(ty) {
 			return Val{T: fmt.Sprintf("(%s %s %s)", x.Op, av, bv)}, tBool
 		}
@@ -767,6 +771,20 @@ func (e *Env) call(x *ECall) (Val, types.Type) {
 			return Val{T: fmt.Sprintf("(= %s 2)", m)}, tBool
 		}
 		return Val{T: fmt.Sprintf("(>= %s 1)", m)}, tBool
+	case "final":
+		// final(x): the value of the function's local variable x at this return (ensures only; parameters by their plain name mean ENTRY values)
+		id, ok := x.Args[0].(*EIdent)
+		if !ok || len(x.Args) != 1 {
+			return e.fail("final() takes the name of a local variable")
+		}
+		if e.final == nil {
+			return e.fail("final() is only available in ensures clauses")
+		}
+		v, ty, ok := e.final(id.Name)
+		if !ok {
+			return e.fail("final(%s): no such local variable in scope at this return", id.Name)
+		}
+		return v, ty
 	case "drained":
 		// drained(ch): the most recent channel operation of this function on ch was a non-blocking select with a
 		// receive case on ch that took its default branch (the queue was seen empty and nothing was sent since)
